@@ -7,6 +7,7 @@ package c10
 import (
 	"encoding/json"
 	"fmt"
+	"os"
 	"sort"
 	"strings"
 	"time"
@@ -205,6 +206,9 @@ func refHTTP(h *HTTPCell) httpRef {
 // executing one history
 // ---------------------------------------------------------------------------
 
+// strictAge turns the Date-derived age of RFC 7234 4.2.3 from a counted don't-care into a violation.
+var strictAge = os.Getenv("VERIF_C10_STRICT_AGE") == "1"
+
 type finding struct {
 	sig, msg string
 }
@@ -257,10 +261,14 @@ func (w *world) tokenTTL() int {
 func (w *world) judge(o obs) (fs []finding, outcomes []string) {
 	now := w.now()
 	mech := w.cell.Mech
-	add := func(sig, msg string) { fs = append(fs, finding{mech + "/" + sig, msg}) }
+	add := func(sig, msg string) { fs = append(fs, finding{component(w.cell, sig) + "/" + sig, msg}) }
 
 	if !o.h.ok {
-		outcomes = append(outcomes, "request-failed")
+		if strings.Contains(o.h.err, "expired") {
+			outcomes = append(outcomes, "request-refused:credential-or-certificate-expired")
+		} else {
+			outcomes = append(outcomes, "request-failed:other:"+mech+":"+firstLine(o.h.err))
+		}
 	}
 
 	var cfg *int
@@ -304,10 +312,16 @@ func (w *world) judge(o obs) (fs []finding, outcomes []string) {
 				cause, detail = "non-positive-ttl-stored", fmt.Sprintf("ttl %v", op.TTL)
 			case op.TTL > secs(hr.life):
 				cause, detail = "ttl-exceeds-freshness-lifetime", fmt.Sprintf("ttl %v > freshness lifetime %ds", op.TTL, hr.life)
-			case hr.age > 0 && op.TTL > secs(hr.life-hr.age):
-				cause = "response-age-from-Date-header-ignored"
-				detail = fmt.Sprintf("Date is %ds old on arrival, freshness lifetime %ds => fresh for %ds more, stored with ttl %v",
-					hr.age, hr.life, hr.life-hr.age, op.TTL)
+			case hr.explicit && hr.age > 0 && op.TTL > secs(hr.life-hr.age):
+				// the statement does not say whether the lifetime counts from the reception or, as RFC 7234 4.2.3 has it,
+				// from the Date of the response: don't-care unless VERIF_C10_STRICT_AGE=1
+				if strictAge {
+					cause = "response-age-from-Date-header-ignored"
+					detail = fmt.Sprintf("Date is %ds old on arrival, freshness lifetime %ds => fresh for %ds more, stored with ttl %v",
+						hr.age, hr.life, hr.life-hr.age, op.TTL)
+				} else {
+					outcomes = append(outcomes, "dont-care:stored-beyond-Date-derived-age")
+				}
 			default:
 				outcomes = append(outcomes, "stored-within-bound")
 			}
@@ -371,6 +385,11 @@ func (w *world) judge(o obs) (fs []finding, outcomes []string) {
 		if cause != "" {
 			if ent != nil {
 				ent.cause = cause
+			}
+
+			if o.h.validEnd != nil && op.TTL > 0 {
+				detail += fmt.Sprintf("; the entry is served until T0+%ds, the end of validity is T0%+ds", w.off+int(op.TTL/time.Second),
+					int(o.h.validEnd.Sub(env.T0)/time.Second))
 			}
 
 			add(cause, fmt.Sprintf("at T0+%ds a Set was accepted by the %s cache: %s", w.off, w.cell.Cache, detail))
@@ -438,14 +457,16 @@ func (w *world) judge(o obs) (fs []finding, outcomes []string) {
 
 			add(explain(), fmt.Sprintf("at T0+%ds the response generated %ds earlier was served from the %s cache (freshness lifetime: %s; %s)",
 				w.off, d, w.cell.Cache, lifeStr(hr), entStr))
-		case hr.age > 0 && hr.age+d > hr.life:
+		case hr.explicit && hr.age > 0 && hr.age+d > hr.life && !strictAge:
+			outcomes = append(outcomes, "dont-care:fresh-by-reception-time-but-stale-by-Date-derived-age")
+		case hr.explicit && hr.age > 0 && hr.age+d > hr.life:
 			bad = true
 
 			add("response-age-from-Date-header-ignored", fmt.Sprintf("at T0+%ds the response generated %ds earlier, whose Date was already %ds old, "+
 				"was served from cache: current_age %ds > freshness lifetime %ds (%s)", w.off, d, hr.age, hr.age+d, hr.life, entStr))
 		case hr.noCache:
 			outcomes = append(outcomes, "dont-care:no-cache-response-reused-without-revalidation")
-		case d == hr.life || (hr.age > 0 && hr.age+d == hr.life):
+		case d == hr.life || (hr.explicit && hr.age > 0 && hr.age+d == hr.life):
 			outcomes = append(outcomes, "dont-care:hit-at-exact-end-of-validity")
 		}
 	} else {
@@ -490,6 +511,21 @@ func (w *world) judge(o obs) (fs []finding, outcomes []string) {
 	}
 
 	return fs, outcomes
+}
+
+// component names the piece of code a diagnosis belongs to, so that one cause has one signature: both client
+// credentials users share clientcredentials.go; an entry returned past its ttl is the cache's doing, not the mechanism's.
+func component(cell Cell, cause string) string {
+	if cause == "cache-returned-entry-past-its-ttl" {
+		return cell.Cache + "-cache"
+	}
+
+	switch cell.Mech {
+	case "cc-finalizer", "cc-authstrategy":
+		return "client-credentials"
+	}
+
+	return cell.Mech
 }
 
 func lifeStr(hr httpRef) string {
@@ -683,8 +719,8 @@ func Check() *engine.Check {
 		Level: "model_checking",
 		Rule: "per cell (mechanism x cache semantics x remaining lifetime R of the credential/certificate/token x prototype ttl x rule level " +
 			"override [x validity leeway]; for RFC 7234: Cache-Control x Expires x Date x default_ttl [x method]) an explicit-state BFS over " +
-			"histories of request / advance(Δ), Δ from {1, R−leeway−1, R, R+leeway+1, TTL−1, TTL+1} (thorough: + exact boundaries), depth 3 (quick) / 4 " +
-			"(thorough); every successor is built by replaying the history on fresh objects: catalogue -> production mechanism factory -> " +
+			"histories of request / advance(Δ), Δ from {1, R−leeway−1, R, R+leeway+1, TTL−1, TTL+1} (thorough: + exact boundaries), depth 3 (quick, " +
+			"plus the directed 5-step probes request·advance(Δ)·request·advance(Δ)·request for every Δ) / 5 (thorough); every successor is built by replaying the history on fresh objects: catalogue -> production mechanism factory -> " +
 			"prototype -> WithConfig -> Execute through a heimdall.Context on the virtual clock, remotes in process, recording cache around the " +
 			"real in-memory cache or a Redis SET PX reference; state = (clock offset, recorded entries with store time and ttl); oracle (i) " +
 			"every accepted Set has 0 < ttl <= min(configured, remaining lifetime − documented leeway), none when that is <= 0 or the ttl is 0, " +
@@ -703,14 +739,15 @@ func Check() *engine.Check {
 				"don't-care; validity leeway unset = 10 s (assertions: documented; session_lifespan: docs say 0, code 10 s — the larger bounds the oracle); " +
 				"hits exactly at the end of validity / at stored+ttl, expires_in: 0, and reuse of a `no-cache` response are don't-care and counted",
 			"RFC 7234 reference: lifetime = max-age, else Expires − Date (Date absent = reception), else default_ttl (none if 0); age on arrival = " +
-				"reception − Date; served at t is fresh iff age + (t − reception) <= lifetime",
+				"reception − Date; served at t is stale if (t − reception) > lifetime; whether the Date-derived age of an explicit lifetime also counts " +
+				"(RFC 7234 4.2.3) is not settled by the statement: counted as don't-care (VERIF_C10_STRICT_AGE=1 makes it a violation)",
 		},
 		Shards: func(tier string) int {
 			if tier == "thorough" {
 				return 16
 			}
 
-			return 12
+			return 8
 		},
 		Budget: func(tier string) time.Duration {
 			if tier == "thorough" {
@@ -732,11 +769,13 @@ func run(c *engine.Ctx) {
 	depth := 3
 
 	if thorough {
-		depth = 4
+		depth = 5
 	}
 
 	all := cells(thorough)
-	c.Count("cells_total", int64(len(all)))
+	if c.Shard == 0 {
+		c.Count("cells_total", int64(len(all)))
+	}
 
 	for i, cell := range all {
 		if !c.Mine(i) {
@@ -832,6 +871,34 @@ func bfsCell(c *engine.Ctx, cell Cell, depth int, thorough bool) {
 		}
 
 		frontier = next
+	}
+
+	if depth >= 5 {
+		return
+	}
+
+	// directed deep probes beyond the BFS bound (sliding expiration needs two hits): request, advance(Δ), request,
+	// advance(Δ), request for every Δ of the menu. Subsumed by the BFS when its depth is >= 5.
+	for _, op := range ops[1:] {
+		hist := []Op{{Kind: "request"}, op, {Kind: "request"}, op, {Kind: "request"}}
+		res := execHistory(cell, hist)
+
+		c.Transitions(1)
+		c.Traces(1)
+		c.Eval(1)
+		c.Count("deep_probe_histories", 1)
+
+		for _, o := range res.outcomes {
+			c.Outcome(o)
+		}
+
+		if res.lastHit || res.lastSet {
+			c.Nontrivial(cell.String() + "|" + histStr(hist))
+		}
+
+		for _, f := range res.findings {
+			c.Violation(f.sig, cell.String()+" ["+histStr(hist)+"]: "+f.msg, Case{Cell: cell, Hist: hist, Trace: res.trace})
+		}
 	}
 }
 
